@@ -290,11 +290,16 @@ def scenarios(draw, prof=GENERAL):
     top['inspect'] = chance(draw, prof.p_inspect)
     top['prelude'] = chance(draw, prof.p_prelude)
     top['latefill'] = chance(draw, prof.p_latefill)
+    if len(top['members']) > 40:
+        # quadratic inspection / re-wiring work on hundreds of members buys nothing
+        top['inspect'] = False
+        if len(top['members']) > 130:
+            top['prelude'] = False
     top['entry'] = draw(weighted((('run', 6), ('orchestrate', 1), ('co_run', 2),
                                   ('run-no-current-loop', 1))))
     if chance(draw, prof.p_rerun):
         top['rerun'] = True
-        if chance(draw, 50):
+        if chance(draw, 50) and len(top['members']) <= 130:
             top['prelude'] = True   # re-wired between the two runs
         _force_abstract(top)        # a coroutine object cannot be awaited twice
     return assign_ids(top)
